@@ -272,6 +272,19 @@ fn script(name: &str, sc: &Scenario, cap: usize) {
                 Err(e) => panic!("PROPERTY: cont after the end: {e}"),
             }
         }
+        // S7: the controller lists and (harmlessly) edits the breakpoints while the parser is running
+        "S7" => {
+            let (tx, rx) = sync_channel(cap);
+            ctx.run(sc.rule, tx).expect("run");
+            let listed = ctx.list_breakpoints();
+            if listed.len() != sc.breakpoints.len() {
+                panic!("PROPERTY: list_breakpoints gives {listed:?}");
+            }
+            ctx.add_breakpoint("zzz-not-a-rule".to_string());
+            drive(&mut ctx, &rx, &want, |c| {
+                let _ = c.list_breakpoints();
+            });
+        }
         // S6: one cont too many at the last stop of the first run, then a second run
         "S6" => {
             let (tx, rx) = sync_channel(cap);
@@ -481,8 +494,8 @@ fn main() {
     // work items
     let mut items: Vec<(&str, &Scenario, usize, Option<usize>)> = vec![];
     for sc in SCENARIOS {
-        for s in ["S1", "S2", "S2-delete-all", "S2-delete-all-add", "S2-delete", "S2-add-all", "S2-swap", "S3", "S4", "S5", "S6"] {
-            if (s.starts_with("S2") || s == "S3" || s == "S6") && sc.breakpoints.is_empty() {
+        for s in ["S1", "S2", "S2-delete-all", "S2-delete-all-add", "S2-delete", "S2-add-all", "S2-swap", "S3", "S4", "S5", "S6", "S7"] {
+            if (s.starts_with("S2") || s == "S3" || s == "S6" || s == "S7") && sc.breakpoints.is_empty() {
                 continue;
             }
 
@@ -592,7 +605,7 @@ fn main() {
     cov.insert("states".into(), json!(states));
     cov.insert("transitions".into(), json!(states));
     cov.insert("traces_validated_against_impl".into(), json!(states));
-    cov.insert("rule".into(), json!("loom (DPOR, iterated preemption bound) on the real debugger/src/lib.rs rebound to loom primitives by build.rs: scripts S1 (run, receive/continue to the end), S2 (breakpoints edited while stopped), S3 (re-run after the first event), S4 (re-run immediately, precondition enforced exactly), S5 (run to the end, re-run), S6 (a surplus cont at the last stop, then re-run) x 13 grammar/input/breakpoint scenarios (two hits, nested hits, none, failing parse, single hit, hit in a repetition, breakpoints on built-ins / silent rules / implicit WHITESPACE / stack built-ins, multi-byte input) x channel capacity 1 (as the CLI) and 2 (S3/S4). In every execution: delivered events == the reference entries of the parse (S_doc on the optimized rules, every rule entry incl. built-ins; the VM's own listener trace is compared with it sequentially) filtered by the breakpoint set + Eof / the plain VM error text; try_recv between a breakpoint and its cont is empty; every run() returns and all threads terminate (loom reports blocked-forever threads). states = executions (complete interleavings) explored; each is a run of the real code"));
+    cov.insert("rule".into(), json!("loom (DPOR, iterated preemption bound) on the real debugger/src/lib.rs rebound to loom primitives by build.rs: scripts S1 (run, receive/continue to the end), S2 (breakpoints edited while stopped), S3 (re-run after the first event), S4 (re-run immediately, precondition enforced exactly), S5 (run to the end, re-run), S6 (a surplus cont at the last stop, then re-run), S7 (breakpoints listed / edited while the parser is running) x 13 grammar/input/breakpoint scenarios (two hits, nested hits, none, failing parse, single hit, hit in a repetition, breakpoints on built-ins / silent rules / implicit WHITESPACE / stack built-ins, multi-byte input) x channel capacity 1 (as the CLI) and 2 (S3/S4). In every execution: delivered events == the reference entries of the parse (S_doc on the optimized rules, every rule entry incl. built-ins; the VM's own listener trace is compared with it sequentially) filtered by the breakpoint set + Eof / the plain VM error text; try_recv between a breakpoint and its cont is empty; every run() returns and all threads terminate (loom reports blocked-forever threads). states = executions (complete interleavings) explored; each is a run of the real code"));
     let v: Value = json!(bounds.iter().map(|b| b.map(|x| x.to_string()).unwrap_or("unbounded".into())).collect::<Vec<_>>());
     cov.insert("preemption_bounds".into(), v);
     verdict::conclude(verdict::Report {
